@@ -776,6 +776,82 @@ func init() {
 		Fn:   "Main", Args: []Arg{{T: "int", I: 1}}, Res: "int", GoWant: "i:43"})
 }
 
+// What a review of the repairs found left over: each of these is a second code path of a defect repaired before.
+func init() {
+	iarg := func(v int64) []Arg { return []Arg{{T: "int", I: v}} }
+	findings = append(findings,
+		finding{Key: kSelectorTwice, What: "a compound assignment or ++ / -- whose target is a field selector over an index expression or a call (ts[idx()].n += v, ts[idx()].n++, get().n += v) evaluates the operand of the selector twice, once to load the field and once more to store it: the call runs twice and the result lands in another object than the one read (the earlier repair of s[f()] += v covered index expressions as targets only)",
+			Src: `package foo
+
+type T struct {
+	n int
+}
+
+var cnt int
+
+func idx() int {
+	cnt++
+	return cnt - 1
+}
+
+func Main(a int) int {
+	ts := [4]T{{1}, {2}, {3}, {4}}
+	ts[idx()].n += 10
+	ts[idx()].n++
+	return ts[0].n + ts[1].n*100 + ts[2].n*10000 + cnt*1000000 + a
+}
+`, Fn: "Main", Args: iarg(0), Res: "int", GoWant: "i:2030311"},
+		finding{Key: kTupleMultiRet, What: "a tuple assignment fed by one call with several results (s[i], i = two(); w, w = two()) stores from right to left and evaluates the index operands on the left when it stores (the earlier repair of the tuple assignment covered a, b = x, y only)",
+			Src: `package foo
+
+func two() (int, int) {
+	return 5, 2
+}
+
+func Main(a int) int {
+	s := []int{10, 20, 30}
+	i := 0
+	s[i], i = two()
+	return s[0] + s[1]*10 + s[2]*100 + i*1000 + a
+}
+`, Fn: "Main", Args: iarg(0), Res: "int", GoWant: "i:5205"},
+		finding{Key: kAppendNilBytes, What: "append(b, t...) with a nil []byte t faults in CAT (Null operand); the earlier repair of append(s, nilSlice...) covered the slices that are Arrays only",
+			Src: `package foo
+
+func Main(a int) int {
+	c := []byte{1, 2}
+	var d []byte
+	c = append(c, d...)
+	return len(c) + a
+}
+`, Fn: "Main", Args: iarg(0), Res: "int", GoWant: "i:2"},
+		finding{Key: kTupleDeref, What: "(*p).b, s[0] = 50, 1: a field of an explicitly dereferenced pointer as a target of a tuple assignment is set in a copy of *p, the store is lost (the earlier repair of (*p).f = v did not reach the tuple assignment)",
+			Src: `package foo
+
+type T struct {
+	a, b int
+}
+
+func Main(a int) int {
+	p := &T{1, 2}
+	s := []int{0}
+	(*p).b, s[0] = 50, 1
+	return p.b*10 + s[0] + a
+}
+`, Fn: "Main", Args: iarg(0), Res: "int", GoWant: "i:501"},
+		finding{Key: kImportedFuncVal, What: "a function of an imported package used as a value (f := foo.NewBar; f(), apply(foo.NewBar)) is compiled to a load of an unset variable of that package and faults at CALLA on Null; the usage analysis drops the function when nothing calls it directly (the earlier repair of f := helper covered identifiers of the same package only)",
+			Src: `package foo
+
+import "github.com/nspcc-dev/neo-go/pkg/compiler/testdata/foo"
+
+func Main(a int) int {
+	f := foo.NewBar
+	return f() + a
+}
+`, Fn: "Main", Args: iarg(0), Res: "int", GoWant: "i:10"},
+	)
+}
+
 // runFinding executes the neo-go side of a reproduction and renders the outcome in the notation of the check.
 func runFinding(f finding) string {
 	nf, di, err, crash := compileProg("finding.go", f.Src)
@@ -806,7 +882,7 @@ func runFinding(f finding) string {
 	if off < 0 {
 		return "NO-METHOD"
 	}
-	r := runVM(nf.Script, off, initOff, f.Args, f.Res)
+	r := runVM(nf.Script, off, initOff, -1, f.Args, f.Res)
 	switch {
 	case r.fault != "":
 		return "PANIC"
